@@ -648,7 +648,13 @@ func (r *Reconciler) applyRollback(ctx context.Context, transaction *configapi.T
 		// the rollback will be applied to the target in the event of a race or failure in which the
 		// target was updated but the transaction status was not. This enables users to effectively
 		// cancel hanging (in progress) transactions by rolling them back.
-		switch transaction.Status.Change.Apply.State {
+		changeApplyState := transaction.Status.Change.Apply.State
+		if changeApplyState == configapi.TransactionPhaseStatus_PENDING && configuration.Applied.Target == transaction.ID.Index {
+			// The applied target index had already been moved to this change when its status write was
+			// lost: the apply was in progress.
+			changeApplyState = configapi.TransactionPhaseStatus_IN_PROGRESS
+		}
+		switch changeApplyState {
 		case configapi.TransactionPhaseStatus_PENDING:
 			// If the change is pending apply, abort the apply phase. This must be done only once the
 			// prior transaction phase has been applied to ensure aborts still occur sequentially
